@@ -1700,6 +1700,29 @@ class Interp:
         m = _lib.method_of(self, obj, name)
         if m is not None:
             return m
+        if isinstance(obj, BoundMethod) and name == "__func__":
+            return obj.func
+        if isinstance(obj, BoundMethod) and name == "__self__":
+            return obj.obj
+        if isinstance(obj, Builtin) and obj is self.builtins.get("dict") and name in (
+                "__getitem__", "__setitem__", "__contains__", "__delitem__", "get", "pop"):
+            # dict.<method>(d, ...): the plain dictionary operation, bypassing an override in a subclass
+            def plain(I, d, *a, _n=name):
+                m = d.map if isinstance(d, Obj) and d.map is not None else d
+                if not isinstance(m, SDict):
+                    raise Unsupported(f"dict.{_n} on {d!r}")
+                if _n == "__getitem__":
+                    return _lib.dict_getitem(I, m, *a)
+                if _n == "__setitem__":
+                    return _lib.dict_setitem(I, m, *a)
+                if _n == "__contains__":
+                    return I.contains(m, *a)
+                if _n == "__delitem__":
+                    return _lib.dict_pop(I, m, *a) and None
+                if _n == "pop":
+                    return _lib.dict_pop(I, m, *a)
+                return I.call(I.getattr(m, "get"), list(a), {})
+            return Builtin("dict." + name, plain)
         if isinstance(obj, Builtin) and obj is self.builtins.get("dict") and name == "fromkeys":
             def fromkeys(I, keys, value=None):
                 d = SDict()
